@@ -82,14 +82,26 @@ def _check_syntactic(m, run, funcs, summ, contracts):
         grid_view(m, run, summ)
     from . import c09
     c09.no_escape(m, run)     # the 2-D grid view holds the very point lists of the flat array (never the caller's): edits through one view reach the other
-    transpose_rule(m, run, summ)
+    transpose_checks(m, run, summ)
     flip_rule(m, run)
     sweep_rule(m, run)
+    _sd.sw2(m, run)
     flip2d_rule(m, run)
     df1(m, run)
     run.floor('LY1.index-matches-layout', 40, 'index reads checked by the LAYOUT interpreter')
     run.floor('LY3.list-matches-declared-sizes', 24, 'set_ctrlpts / constructed nets checked by the LAYOUT interpreter')
     run.floor('AX4.axis-map-single-valued', 20, 'construct (2 + 3 directions), extract (3 planes + 2), transpose')
+
+
+def transpose_checks(m, run, summ):
+    """transposition is decided by interpreting operations.transpose together with the real property setters on abstract surfaces (TP2);
+    the rule that reads the statement order of the pinned spelling corroborates"""
+    from .. import skel_drivers as _sd
+    n0 = len(run.obs)
+    _sd.tp2(m, run)
+    ok = all(o.ok for o in run.obs[n0:])
+    with run.corroborating(ok, 'TP2', rules=('AX4.transpose-protocol', 'AX4.axis-map-single-valued', 'LY3.list-matches-declared-sizes')):
+        transpose_rule(m, run, summ)
 
 
 def grid_view(m, run, summ):
